@@ -44,6 +44,7 @@ type World struct {
 	ackOK    map[string]int    // chain|src/dst/seq -> accepted acknowledgements
 	cleanPt  map[string]uint64 // chain|src/dst -> highest clean point seen
 	sendSeqs map[string]uint64 // chain|src/dst -> number of successful sends observed
+	txCount  int
 }
 
 func (w *World) hit(prop, sig string) {
